@@ -185,8 +185,15 @@ fn build_two_builds(name: &'static str, second_has_symbols: bool) -> Input {
     Input { name, dump: Arc::new(d.finish().unwrap()), syms: Arc::new(syms), tag: if second_has_symbols { "" } else { "modules-sharing-a-file-name-with-different-symbol-outcomes:" } }
 }
 
+/// the bit-flip analysis reports candidates from the crash address and from two registers of the instruction
+fn build_bitflips(name: &'static str) -> Input {
+    let m = vh::procgen::two_register_bitflip_model();
+    Input { name, dump: Arc::new(vh::procgen::build(&m)), syms: Arc::new(HashMap::new()), tag: "" }
+}
+
 fn inputs() -> Vec<Input> {
     vec![
+        build_bitflips("amd64-bit-flips-from-two-registers"),
         build_two_builds("arm64-two-builds-of-one-file", true),
         build_two_builds("arm64-two-builds-of-one-file-one-without-symbols", false),
         build_confusable("arm64-confusable-module-names"),
